@@ -147,7 +147,16 @@ def unit_hyp(a):
     return stats
 
 
+def unit_reuse(a):
+    from vlib.astgen import st_ast
+    from .textdocs_impl import proj_c09
+    return pc.unit_reuse(a, st_ast(), proj_c09, "C09 projection of the pickles", 69)
+
+
 def replay(case, stats):
+    if case["sub"] == "reuse":
+        from .textdocs_impl import proj_c09
+        return pc.check_reuse(case, stats, proj_c09, "C09 projection of the pickles")
     if case["sub"] == "text":
         from . import textdocs
         return textdocs.check_text(case, stats, "C09")
@@ -159,6 +168,7 @@ def run(ctx):
     ns = 16
     ctx.units("alphabet-exhaustive", unit_alpha, [{"shard": i, "nshards": ns, "sample": 0, "seed": ctx.seed} for i in range(ns)], procs=ns)
     ctx.units("unicode-hypothesis", unit_hyp, [{"n": 700 if q else 8000, "seed": ctx.seed, "shard": i} for i in range(3 if q else 16)], procs=16)
+    ctx.units("compiler-reuse", unit_reuse, [{"n": 300 if q else 4000, "seed": ctx.seed, "shard": i} for i in range(4 if q else 16)], procs=16)
     from . import textdocs
     textdocs.run_text(ctx, "C09")
     ctx.exhaustive = False
